@@ -1209,3 +1209,270 @@ impl FileSystem for SimFs {
         })))
     }
 }
+
+// ------------------------------------------------------------------------------------------------
+// Conformance replay: the mutating calls of a recorded run, issued against another `FileSystem`
+// implementation (raindb's disk-backed and in-memory ones), whose final contents must equal the
+// reference model's.  This is how the fault histories explored on the simulated file system are
+// carried over to the file systems raindb ships.
+
+/// What a conformance replay observed.
+#[derive(Default, Debug)]
+pub struct ConformanceReport {
+    pub ops_replayed: u64,
+    pub bytes_written: u64,
+    /// creates (truncating) of a path that held data at that moment
+    pub truncating_creates_of_nonempty_files: u64,
+    pub renames_over_existing: u64,
+    /// of the truncating creates above: those after which the file stayed shorter than it had been
+    /// (only these tell a create that truncates from one that does not)
+    pub recreated_files_that_stayed_shorter: u64,
+    pub files_compared: u64,
+    /// (what, detail) — empty when the implementation agreed with the model everywhere
+    pub divergences: Vec<(String, String)>,
+}
+
+struct ReplayHandle {
+    file: Box<dyn raindb::fs::RandomAccessFile>,
+    append: bool,
+    cursor: u64,
+}
+
+
+fn push_divergence(report: &mut ConformanceReport, what: &str, detail: String) {
+    if report.divergences.len() < 6 {
+        report.divergences.push((what.to_string(), detail));
+    }
+}
+
+/// Compare one file of `fs` with the contents the model holds for it.
+fn compare_file(fs: &dyn FileSystem, mapped: &Path, path: &Path, want: &Arc<Vec<u8>>, report: &mut ConformanceReport) {
+    // the size the file system reports decides how much is read: the read calls are not asked
+    // to detect the end of the file themselves (raindb never relies on that either)
+    let size = match fs.get_file_size(mapped) {
+        Ok(n) => n as usize,
+        Err(e) => {
+            push_divergence(report, "file-missing", format!("{}: {e}", path.display()));
+            return;
+        }
+    };
+    if size != want.len() {
+        push_divergence(report, "file-size-differs", format!("{}: the file system reports {size} bytes, the model holds {}", path.display(), want.len()));
+        return;
+    }
+    if size == 0 {
+        return;
+    }
+    match fs.open_file(mapped) {
+        Ok(file) => {
+            let mut got = vec![0u8; size];
+            let mut filled = 0usize;
+            while filled < size {
+                match file.read_from(&mut got[filled..], filled) {
+                    Ok(0) => break,
+                    Ok(n) => filled += n.min(size - filled),
+                    Err(e) => {
+                        push_divergence(report, "read-refused", format!("{}: {e}", path.display()));
+                        break;
+                    }
+                }
+            }
+            got.truncate(filled);
+            if got != **want {
+                let first = got.iter().zip(want.iter()).position(|(a, b)| a != b).unwrap_or(got.len().min(want.len()));
+                push_divergence(report, "file-contents-differ", format!("{}: {} bytes read, {} expected, first difference at offset {first}", path.display(), got.len(), want.len()));
+            }
+        }
+        Err(e) => push_divergence(report, "open_file-refused", format!("{}: {e}", path.display())),
+    }
+}
+
+/// Replay `journal` (recorded from the state `base`, which must hold directories only) against
+/// `fs`; `map` turns a path of the simulated file system into the path to use with `fs`.
+pub fn replay_for_conformance(fs: &dyn FileSystem, map: &dyn Fn(&Path) -> PathBuf, base: &Image, journal: &[JEntry]) -> ConformanceReport {
+    let mut report = ConformanceReport::default();
+    let mut core = Core::from_image(base);
+    let mut handles: HashMap<u64, ReplayHandle> = HashMap::new();
+    let mut order: std::collections::VecDeque<u64> = Default::default();
+    let mut locks: HashMap<PathBuf, raindb::fs::FileLock> = HashMap::new();
+    let mut recreated: Vec<(u64, usize)> = vec![];
+    for dir in &base.dirs {
+        let _ = fs.create_dir_all(&map(dir));
+    }
+    let mut diverge = |report: &mut ConformanceReport, what: &str, detail: String| {
+        if report.divergences.len() < 6 {
+            report.divergences.push((what.to_string(), detail));
+        }
+    };
+    for (i, entry) in journal.iter().enumerate() {
+        let op = &entry.op;
+        let desc = format!("journal entry {i}: {}", op.describe());
+        report.ops_replayed += 1;
+        match op {
+            JOp::Mkdir(p) => {
+                if let Err(e) = fs.create_dir(&map(p)) {
+                    diverge(&mut report, "create_dir-refused", format!("{desc}: {e}"));
+                }
+                core.apply(op);
+            }
+            JOp::MkdirAll(p) => {
+                if let Err(e) = fs.create_dir_all(&map(p)) {
+                    diverge(&mut report, "create_dir_all-refused", format!("{desc}: {e}"));
+                }
+                core.apply(op);
+            }
+            JOp::CreateTrunc(p) | JOp::OpenAppend(p) => {
+                let append = matches!(op, JOp::OpenAppend(_));
+                let existing_len = core.paths.get(p).map_or(0, |id| core.nodes[id].data.len());
+                let id = core.apply(op);
+                if !append && existing_len > 0 {
+                    report.truncating_creates_of_nonempty_files += 1;
+                    recreated.push((id, existing_len));
+                }
+                match fs.create_file(&map(p), append) {
+                    Ok(file) => {
+                        if !handles.contains_key(&id) {
+                            order.push_back(id);
+                        }
+                        handles.insert(id, ReplayHandle { file, append, cursor: 0 });
+                    }
+                    Err(e) => diverge(&mut report, "create_file-refused", format!("{desc}: {e}")),
+                }
+                // bound the number of open descriptors: a later write reopens the path for appending
+                while order.len() > 128 {
+                    if let Some(old) = order.pop_front() {
+                        handles.remove(&old);
+                    }
+                }
+            }
+            JOp::Write { inode, offset, data, path } => {
+                if !core.nodes.contains_key(inode) {
+                    continue; // the file was unlinked and is not observable any more
+                }
+                let end_of_file = core.nodes[inode].data.len() as u64;
+                if !handles.contains_key(inode) && *offset == end_of_file {
+                    let linked = core.paths.iter().find(|(_, id)| *id == inode).map(|(p, _)| p.clone());
+                    if let Some(p) = linked {
+                        match fs.create_file(&map(&p), true) {
+                            Ok(file) => {
+                                handles.insert(*inode, ReplayHandle { file, append: true, cursor: 0 });
+                                order.push_back(*inode);
+                            }
+                            Err(e) => diverge(&mut report, "create_file-refused", format!("{desc} (reopening {} for append): {e}", path.display())),
+                        }
+                    }
+                }
+                core.apply(op);
+                let Some(handle) = handles.get_mut(inode) else { continue };
+                let result = if handle.append {
+                    handle.file.append(data).and_then(|n| if n == data.len() { Ok(()) } else { Err(io::Error::new(io::ErrorKind::WriteZero, format!("append took {n} of {} bytes", data.len()))) })
+                } else {
+                    let seek = if handle.cursor != *offset { handle.file.seek(SeekFrom::Start(*offset)).map(|_| ()) } else { Ok(()) };
+                    seek.and_then(|_| handle.file.write_all(data))
+                };
+                handle.cursor = *offset + data.len() as u64;
+                report.bytes_written += data.len() as u64;
+                if let Err(e) = result.and_then(|_| handle.file.flush()) {
+                    diverge(&mut report, "write-refused", format!("{desc}: {e}"));
+                }
+            }
+            JOp::Rename(from, to) => {
+                if core.paths.contains_key(to) {
+                    report.renames_over_existing += 1;
+                    if let Some(id) = core.paths.get(to) {
+                        handles.remove(id);
+                    }
+                }
+                core.apply(op);
+                if let Err(e) = fs.rename(&map(from), &map(to)) {
+                    diverge(&mut report, "rename-refused", format!("{desc}: {e}"));
+                }
+            }
+            JOp::Remove(p) => {
+                if let Some(id) = core.paths.get(p) {
+                    handles.remove(id);
+                    let now = core.nodes[id].data.len();
+                    if recreated.iter().any(|(r, _)| r == id) {
+                        // a file that was created over an existing one is compared before it goes
+                        report.files_compared += 1;
+                        let want = Arc::clone(&core.nodes[id].data);
+                        compare_file(fs, &map(p), p, &want, &mut report);
+                    }
+                    report.recreated_files_that_stayed_shorter += recreated.iter().filter(|(r, old)| r == id && now < *old).count() as u64;
+                    recreated.retain(|(r, _)| r != id);
+                }
+                core.apply(op);
+                if let Err(e) = fs.remove_file(&map(p)) {
+                    diverge(&mut report, "remove_file-refused", format!("{desc}: {e}"));
+                }
+            }
+            JOp::RemoveDir(p) => {
+                core.apply(op);
+                if let Err(e) = fs.remove_dir(&map(p)) {
+                    diverge(&mut report, "remove_dir-refused", format!("{desc}: {e}"));
+                }
+            }
+            JOp::RemoveDirAll(p) => {
+                let victims: Vec<u64> = core.paths.iter().filter(|(f, _)| f.starts_with(p)).map(|(_, id)| *id).collect();
+                for id in victims {
+                    handles.remove(&id);
+                }
+                locks.retain(|l, _| !l.starts_with(p));
+                core.apply(op);
+                if let Err(e) = fs.remove_dir_all(&map(p)) {
+                    diverge(&mut report, "remove_dir_all-refused", format!("{desc}: {e}"));
+                }
+            }
+            JOp::Lock(p) => {
+                locks.remove(p); // the previous owner (an earlier session of the run) has closed
+                core.apply(op);
+                match fs.lock_file(&map(p)) {
+                    Ok(lock) => {
+                        locks.insert(p.clone(), lock);
+                    }
+                    Err(e) => diverge(&mut report, "lock_file-refused", format!("{desc}: {e}")),
+                }
+            }
+        }
+    }
+    drop(handles);
+    drop(locks);
+    for (id, old) in &recreated {
+        if core.nodes.get(id).map_or(false, |n| n.data.len() < *old) {
+            report.recreated_files_that_stayed_shorter += 1;
+        }
+    }
+    // final state: every file byte for byte, every directory's listing
+    let image = core.image();
+    for (path, want) in &image.files {
+        report.files_compared += 1;
+        compare_file(fs, &map(path), path, want, &mut report);
+    }
+    let dirs_are_implicit = fs.get_name() == "InMemoryFileSystem";
+    for dir in &image.dirs {
+        if dir.as_os_str() == "/" || (dirs_are_implicit && !image.files.keys().any(|f| f.starts_with(dir))) {
+            continue;
+        }
+        let mut want: BTreeSet<String> = BTreeSet::new();
+        for p in image.files.keys().chain(image.dirs.iter()) {
+            // raindb's in-memory file system has no directory objects: a directory exists there as
+            // long as a file lies below it
+            if dirs_are_implicit && image.dirs.contains(p) && !image.files.keys().any(|f| f.starts_with(p)) {
+                continue;
+            }
+            if p.parent() == Some(dir.as_path()) {
+                want.insert(p.file_name().unwrap().to_string_lossy().into_owned());
+            }
+        }
+        match fs.list_dir(&map(dir)) {
+            Ok(entries) => {
+                let got: BTreeSet<String> = entries.iter().filter_map(|e| e.file_name().map(|n| n.to_string_lossy().into_owned())).collect();
+                if got != want {
+                    diverge(&mut report, "directory-listing-differs", format!("{}: listed {:?}, model {:?}", dir.display(), got, want));
+                }
+            }
+            Err(e) => diverge(&mut report, "list_dir-refused", format!("{}: {e}", dir.display())),
+        }
+    }
+    report
+}
